@@ -63,6 +63,12 @@ func propC16(c *Ctx, r *Report) {
 	limitAct, v4, v20 := a.get("PegnetConversionLimitActivation"), a.get("V4OPRUpdate"), a.get("V20HeightActivation")
 	tick, _ := c.tickers()
 	const bank5k = 5000 * 100000000
+	r.rule("C16/bank-row-always-filled", 1, "the bank pass records used and requested for every block it runs in")
+	rulePassThrough(c, r, "C16/bank-row-always-filled", c.fn("node.Pegnetd.recordPegnetRequests"), "pegnet.Pegnet.UpdateBankEntry", "from V4 on the bank row of the block is filled in on every successful pass, also with no request", "the row keeps its -1/-1 'to be filled' marker, so the bank ledger does not record the amount used and requested for that block")
+	rulePayoutsPure(c, r, "C16/payouts-pure")
+	r.rule("C16/settlement-loops-complete", 2, "every request is registered and every payout settled")
+	ruleLoopCompletes(c, r, "C16/settlement-loops-complete", c.fn("node.Pegnetd.recordPegnetRequests"), "pegnet.Pegnet.AddToBalance", "every payout entry is credited and refunded")
+	ruleLoopCompletes(c, r, "C16/settlement-loops-complete", c.fn("node.Pegnetd.recordPegnetRequests"), "conversions.ConversionSupplySet.AddConversion", "every PEG request of the batches is registered")
 
 	// deferral in recordBatch
 	r.rule("C16/era-table", 6, "PEG bank steps by height class")
@@ -371,21 +377,7 @@ func propC16(c *Ctx, r *Report) {
 		prop := t.Live("PayoutBig")
 		r.check(prop == (rel >= 0), "C16/payouts-table", fmt.Sprintf("total requested %s bank", map[int]string{-1: "<", 0: "=", 1: ">"}[rel]), c.pos(pf.Pos()), map[bool]string{true: "proportional shares", false: "requests paid in full"}[rel >= 0], fmt.Sprintf("proportional path %s", liveStr(prop)))
 	}
-	// every request of the set gets an entry (possibly 0): the settlement walks this map to pay AND to refund
-	for _, ci := range c.findCallsFam(pf, "conversions.PayoutBig") {
-		var upd *ssa.MapUpdate
-		allInstrs(ci.Parent(), func(ins ssa.Instruction) {
-			if mu, ok := ins.(*ssa.MapUpdate); ok && unwrapConv(mu.Value) == ci.(ssa.Value) {
-				upd = mu
-			}
-		})
-		if upd == nil {
-			r.viol("C16/payouts-table", "proportional share stored per request", c.ipos(ci), "the result of PayoutBig is not stored in the payout map")
-			continue
-		}
-		okk, why := everyIterationReaches(ci.Parent(), upd)
-		r.check(okk, "C16/payouts-table", "every request gets a payout entry", c.ipos(upd), "", why+": a request without an entry (e.g. a share that rounds to 0) is skipped by recordPegnetRequests, which also computes the refund - its debited input is never given back")
-	}
+	rulePayoutEntryPerRequest(c, r, "C16/payouts-table")
 	pb := c.fn("conversions.PayoutBig")
 	{
 		muls := findCalls(pb, "math/big.Int.Mul")
@@ -632,4 +624,24 @@ func rulePooledListAccumulates(c *Ctx, r *Report, e *eraCtx, rule string) {
 		}
 	}
 	r.check(len(bad) == 0 && n > 0, rule, "ApplyTransactionBatchesInHolding, V4OPRUpdate <= h < V20HeightActivation", c.pos(hold.Pos()), fmt.Sprintf("%d height classes: the list is created before the loop only", n), strings.Join(bad, "; ")+": requests collected at earlier heights of the window are dropped - their inputs were debited, they get neither PEG nor refund")
+}
+
+// rulePayoutEntryPerRequest: in the proportional branch of Payouts() every request gets an entry (possibly 0).
+func rulePayoutEntryPerRequest(c *Ctx, r *Report, rule string) {
+	pf := c.fn("conversions.ConversionSupplySet.Payouts")
+	// every request of the set gets an entry (possibly 0): the settlement walks this map to pay AND to refund
+	for _, ci := range c.findCallsFam(pf, "conversions.PayoutBig") {
+		var upd *ssa.MapUpdate
+		allInstrs(ci.Parent(), func(ins ssa.Instruction) {
+			if mu, ok := ins.(*ssa.MapUpdate); ok && unwrapConv(mu.Value) == ci.(ssa.Value) {
+				upd = mu
+			}
+		})
+		if upd == nil {
+			r.viol(rule, "proportional share stored per request", c.ipos(ci), "the result of PayoutBig is not stored in the payout map")
+			continue
+		}
+		okk, why := everyIterationReaches(ci.Parent(), upd)
+		r.check(okk, rule, "every request gets a payout entry", c.ipos(upd), "", why+": a request without an entry (e.g. a share that rounds to 0) is skipped by recordPegnetRequests, which also computes the refund - its debited input is never given back")
+	}
 }
